@@ -680,7 +680,7 @@ func (w *World) startGeneration() error {
 	loaded := map[string]*shovel.Task{}
 	if p.SharedPool && !p.Checks["no_loadtasks"] {
 		var err error
-		shared, err = w.newPool(fmt.Sprintf("shared#g%d", w.gen), int32(2*len(w.pairs)+2))
+		shared, err = w.newPool(fmt.Sprintf("shared#g%d", w.gen), int32(2*len(w.pairs)+12))
 		if err != nil {
 			return err
 		}
@@ -715,14 +715,14 @@ func (w *World) startGeneration() error {
 		var err error
 		if p.SharedPool {
 			if shared == nil {
-				shared, err = w.newPool(fmt.Sprintf("shared#g%d", w.gen), int32(2*len(w.pairs)+2))
+				shared, err = w.newPool(fmt.Sprintf("shared#g%d", w.gen), int32(2*len(w.pairs)+12))
 				if err != nil {
 					return err
 				}
 			}
 			pool = shared
 		} else {
-			pool, err = w.newPool(ps.owner, 3)
+			pool, err = w.newPool(ps.owner, 12)
 			if err != nil {
 				return err
 			}
